@@ -286,6 +286,8 @@ def configs(tier):
         for version in (6, 7, 8, 2, 3):
             dwc(2, 1, 2, version, False, True, 4, 1, towards=[[0.3, 0.3], [0.3, 0.8]])
         dwc(2, 1, 2, 6, False, False, 4, 1, modified=True, towards=[[0.3, 0.3]])
+        # d = 3 with lmin = 2 (the scheme extension after raising a maximum level depends on (lmin-1)*(d-1))
+        dwc(3, 2, 3, 6, False, True, 1, 1)
         # a domain far from the origin in one dimension (grid spacing tiny relative to the coordinates)
         for bnd in (True, False):
             dwc(2, 1, 2, 6, False, bnd, 3, 1, a=[1048576.0, -1.0], b=[1048577.0, 3.0], towards=[[1048576.3, 0.2]])
